@@ -390,6 +390,7 @@ def check_C05(ctx):
                          "fill state and word size, decoded with the table and (on a clone) without; every entry of the "
                          "encoding/length tables and values around each table boundary; strict backends with the code in "
                          "the last word; table result = non-table result = model")
+    rng = ctx.rng
     reps = 1 if ctx.tier == "quick" else 4
     cases, oracle = table_sweep(ctx, reps)
     ctx.corr(cases, what="C05 decode tables", oracle=oracle)
